@@ -38,6 +38,37 @@ M = [
  ("M28 remote results read with the query lookback", "execution/remote/operator.go", "\tremoteOpts.LookbackDelta = 0\n", "", ["C10"]),
  ("M29 panic on the pull goroutine not recovered", "execution/exchange/concurrent.go", "\t\tif r := recover(); r != nil {\n\t\t\tc.buffer <- maybeStepVector{err: panicToError(r)}\n\t\t}", "", ["C13"]),
  ("M30 engine-level state: optimizer list shared and appended", "engine/engine.go", "\t\tlogicalOptimizers: opts.getLogicalOptimizers(),", "\t\tlogicalOptimizers: append(opts.getLogicalOptimizers(), logicalplan.SortMatchers{}),", ["C20", "C09"]),
+ # ---- batch 2: value-level and edge-case mutations in every operator family ----
+ ("M31 rate zero-point cap needs first sample > 0", "execution/function/functions.go", "if isCounter && resultValue > 0 && samples[0].V >= 0 {", "if isCounter && resultValue > 0 && samples[0].V > 0 {", ["C03", "C01"]),
+ ("M32 extrapolation threshold 1.1 -> 1.2", "execution/function/functions.go", "averageDurationBetweenSamples * 1.1", "averageDurationBetweenSamples * 1.2", ["C03", "C01"]),
+ ("M33 irate treats equal samples as reset", "execution/function/functions.go", "if isRate && lastSample.V < previousSample.V {", "if isRate && lastSample.V <= previousSample.V {", ["C03", "C01"]),
+ ("M34 changes counts NaN->NaN", "execution/function/functions.go", "if current != prev && !(math.IsNaN(current) && math.IsNaN(prev)) {", "if current != prev {", ["C03", "C01"]),
+ ("M35 resets counts equal values", "execution/function/functions.go", "\t\tif current < prev {\n\t\t\tcount++", "\t\tif current <= prev {\n\t\t\tcount++", ["C03", "C01"]),
+ ("M36 max_over_time keeps leading NaN", "execution/function/functions.go", "if v.V > max || math.IsNaN(max) {", "if v.V > max {", ["C03", "C01"]),
+ ("M37 avg_over_time: Inf then finite gives NaN", "execution/function/functions.go", "\t\t\tif !math.IsInf(v.V, 0) && !math.IsNaN(v.V) {", "\t\t\tif false && !math.IsInf(v.V, 0) && !math.IsNaN(v.V) {", ["C03", "C01"]),
+ ("M38 deriv of constant Inf", "execution/function/functions.go", "\t\tif math.IsInf(initY, 0) {\n\t\t\treturn math.NaN(), math.NaN()\n\t\t}\n", "", ["C03", "C01"]),
+ ("M39 sum_over_time loses Kahan compensation", "execution/function/functions.go", "\tif math.IsInf(sum, 0) {\n\t\treturn sum\n\t}\n\treturn sum + c", "\treturn sum", ["C03", "C01"]),
+ ("M40 scalar operand of first step used for the whole batch", "execution/binary/scalar.go", "\t\t\tif len(scalarIn) > v && len(scalarIn[v].Samples) > 0 {\n\t\t\t\tscalarVal = scalarIn[v].Samples[0]", "\t\t\tif len(scalarIn) > v && len(scalarIn[0].Samples) > 0 {\n\t\t\t\tscalarVal = scalarIn[0].Samples[0]", ["C05", "C06", "C01"]),
+ ("M41 max aggregation keeps NaN", "execution/aggregate/scalar_table.go", "if !hasValue || value < v || math.IsNaN(value) {", "if !hasValue || value < v {", ["C04", "C01"]),
+ ("M42 quantile(1, ..) = +Inf", "execution/aggregate/scalar_table.go", "\tif q > 1 {\n\t\treturn math.Inf(+1)", "\tif q >= 1 {\n\t\treturn math.Inf(+1)", ["C04", "C01"]),
+ ("M43 stddev aux not reset between batches", "execution/aggregate/scalar_table.go", "\t\t\t\t\tmean = 0\n\t\t\t\t\taux = 0\n\t\t\t\t},\n\t\t\t}\n\t\t}, nil\n\tcase \"stdvar\":", "\t\t\t\t\tmean = 0\n\t\t\t\t},\n\t\t\t}\n\t\t}, nil\n\tcase \"stdvar\":", ["C04", "C07"]),
+ ("M44 group_left include keeps the many side's label when the one side lacks it", "execution/binary/vector.go", "\t\t\t\t} else {\n\t\t\t\t\tlb.Del(ln)\n\t\t\t\t}", "\t\t\t\t}", ["C05", "C01"]),
+ ("M45 histogram_quantile lowest bucket bound test", "execution/function/quantile.go", "if b == 0 && buckets[0].upperBound <= 0 {", "if b == 0 && buckets[0].upperBound < 0 {", ["C06", "C01"]),
+ ("M46 histogram buckets not made monotonic", "execution/function/quantile.go", "\t\tcase buckets[i].count < max:\n\t\t\tbuckets[i].count = max", "\t\tcase buckets[i].count < max:\n\t\t\t_ = max", ["C06", "C01"]),
+ ("M47 equal bucket bounds not summed", "execution/function/quantile.go", "\t\t\tlast.count += b.count\n", "\t\t\t_ = b.count\n", ["C06", "C01"]),
+ ("M48 histogram_quantile keeps the metric name", "execution/function/histogram.go", "\t\tlbls, _ = DropMetricName(lbls)\n", "", ["C06", "C01"]),
+ ("M49 step invariant drops a last step on the grid", "execution/step_invariant/step_invariant.go", "for i := 0; i < u.stepsBatch && u.currentStep <= u.maxt; i++ {", "for i := 0; i < u.stepsBatch && (u.currentStep < u.maxt || u.currentStep == u.mint); i++ {", ["C07", "C01"]),
+ ("M50 stale sample at the right window edge counted", "execution/scan/matrix_selector.go", "if t == maxt && !value.IsStaleNaN(v) {", "if t == maxt {", ["C03", "C19"]),
+ ("M51 last retained point re-read (duplicate)", "execution/scan/matrix_selector.go", "mint = out[len(out)-1].T + 1", "mint = out[len(out)-1].T", ["C03", "C07"]),
+ ("M52 lookback test uses the step time, not the offset time", "execution/scan/vector_selector.go", "if !ok || t < refTime-lookbackDelta {", "if !ok || t < ts-lookbackDelta {", ["C02", "C01"]),
+ ("M53 instant vector keeps the sample timestamp", "engine/engine.go", "\t\t\t\t\tT: q.ts.UnixMilli(),\n\t\t\t\t},\n\t\t\t})", "\t\t\t\t\tT: series[i].Points[0].T,\n\t\t\t\t},\n\t\t\t})", ["C01", "C07"]),
+ ("M54 same-labelset points at one step silently merged", "engine/engine.go", "\t\t\tcase last.Points[i].T == s.Points[j].T:\n\t\t\t\treturn nil, errSameLabelset", "\t\t\tcase last.Points[i].T == s.Points[j].T:\n\t\t\t\tj++", ["C01", "C19"]),
+ ("M55 hints end ignores @", "execution/execution.go", "\t\tstart = *n.Timestamp\n\t\tend = *n.Timestamp", "\t\tstart = *n.Timestamp", ["C16"]),
+ ("M56 grouping hint leaks through parentheses", "execution/execution.go", "\t\t// The grouping hint is only passed to a direct operand of an aggregation.\n\t\thints.Grouping = nil\n\t\thints.By = false\n", "", ["C16"]),
+ ("M57 unary plus negates", "execution/execution.go", "\t\tcase parser.ADD:\n\t\t\treturn next, nil", "\t\tcase parser.ADD:\n\t\t\treturn unary.NewUnaryNegation(next, stepsBatch)", ["C06", "C01"]),
+ ("M58 aggregation parameter hinted with the operand's grouping", "execution/execution.go", "\t\tif e.Param != nil {\n\t\t\thints.Grouping = nil\n\t\t\thints.By = false\n", "\t\tif e.Param != nil {\n", ["C16"]),
+ ("M59 remote query ignores the query lookback", "execution/execution.go", "e.Engine.NewRangeQuery(&promql.QueryOpts{LookbackDelta: opts.LookbackDelta}, e.Query,", "e.Engine.NewRangeQuery(&promql.QueryOpts{}, e.Query,", ["C10"]),
+ ("M60 without() keeps the metric name", "execution/aggregate/scalar_table.go", "\t\tlb.Del(labels.MetricName)\n\t\tkey, bytes := metric.HashWithoutLabels(buf, grouping...)", "\t\tkey, bytes := metric.HashWithoutLabels(buf, grouping...)", ["C04", "C01"]),
 ]
 
 def sh(cmd, **kw):
